@@ -515,6 +515,19 @@ class ReaderTranslator:
         if isinstance(e, ast.Starred):
             t, v = self.value(e.value, fi, env, depth)
             return t, ("star", v)
+        if isinstance(e, ast.Compare) and len(e.ops) == 1 and isinstance(e.ops[0], (ast.Eq, ast.NotEq, ast.Gt, ast.Lt)):
+            # a count compared with zero is the count's truth value:  n == 0 -> not n;  n != 0, n > 0, 0 < n -> n
+            l_, r_ = e.left, e.comparators[0]
+            zero = lambda x: isinstance(x, ast.Constant) and x.value == 0 and not isinstance(x.value, bool)  # noqa: E731
+            op = type(e.ops[0])
+            sub = None
+            if zero(r_) and op in (ast.Eq, ast.NotEq, ast.Gt):
+                sub, neg = l_, op is ast.Eq
+            elif zero(l_) and op in (ast.Eq, ast.NotEq, ast.Lt):
+                sub, neg = r_, op is ast.Eq
+            if sub is not None:
+                t, v = self.value(sub, fi, env, depth)
+                return t, (("not", v) if neg else v)
         if isinstance(e, ast.Compare) or isinstance(e, ast.BoolOp):
             return [], ("cond", norm(e))
         if isinstance(e, ast.IfExp):
